@@ -27,8 +27,38 @@ def trivial(n):
     return n % 1000 == 0 or (1 <= n // 1000 <= 5 and 1 <= n % 1000 <= 7)
 
 
+def check_history(codes, e_bit):
+    """one answer object whose Result-Code is changed in place between looks: every look must classify the current value"""
+    common.bootstrap()
+    from bromelia import utils
+    from bromelia.base import DiameterAnswer
+    from bromelia.avps import ResultCodeAVP
+    vs = []
+    try:
+        ans = DiameterAnswer(command_code=257, application_id=0, avps=[ResultCodeAVP(codes[0])])
+        if e_bit:
+            ans.header.set_error_bit(True)
+        for i, n in enumerate(codes):
+            if i:
+                ans.result_code_avp.data = n.to_bytes(4, "big")
+            if n % 1000 == 0:
+                continue
+            raw = [getattr(utils, f)(ans) for f in NAMES_ANS]
+            got = [bool(r) for r in raw]
+            want = [n // 1000 == k for k in range(1, 6)]
+            if got != want:
+                k = next(k for k in range(5) if got[k] != want[k])
+                vs.append(V(f"predicate_{k+1}xxx(n) <=> n//1000 == {k+1} - for the value the answer carries now",
+                            f"answer/history/{k+1}xxx/{'false-negative' if want[k] else 'false-positive'}/look{min(i, 1)}",
+                            f"codes {codes} (changed in place), look {i}: n={n} predicates {got}"))
+                break
+    except (Exception,) + common.lib_errors() as e:
+        return [V("answer predicate raises", f"answer-raises/{type(e).__name__}", f"history {codes}: {e!r}")]
+    return vs
+
+
 def check_code(n, via):
-    """via: 'int' | 'answer' | 'decoded'"""
+    """via: 'int' | 'answer' | 'decoded' | 'answer-e' (header E bit set) | 'decoded-e'"""
     common.bootstrap()
     from bromelia import utils
     if n % 1000 == 0:
@@ -45,7 +75,9 @@ def check_code(n, via):
         from bromelia.avps import ResultCodeAVP
         try:
             ans = DiameterAnswer(command_code=257, application_id=0, avps=[ResultCodeAVP(n)])
-            if via == "decoded":
+            if via.endswith("-e"):
+                ans.header.set_error_bit(True)        # the family of a code does not depend on the header's E bit
+            if via.startswith("decoded"):
                 ans = DiameterMessage.load(ans.dump())[0]
             raw = [getattr(utils, f)(ans) for f in NAMES_ANS]
         except (Exception,) + common.lib_errors() as e:
@@ -68,6 +100,8 @@ def check_code(n, via):
 
 
 def run_case(case):
+    if "hist" in case:
+        return check_history(case["hist"], case.get("e", False))
     return check_code(case["n"], case["via"])
 
 
@@ -77,7 +111,7 @@ def _sweep(args):
     nt = 0
     n_eval = 0
     for n in range(lo, hi):
-        for via in ("int", "answer"):
+        for via in ("int", "answer", "answer-e"):
             n_eval += 1
             for v in check_code(n, via):
                 col.violation({"n": n, "via": via}, v)
@@ -104,16 +138,21 @@ def main(ctx):
     bound = [2**16, 2**16 + 1, 2**24 + 5012, 2**31 - 1, 2**31, 2**31 + 3001, 2**32 - 1, 2**32 - 1000 + 1,
              0x0BB8 | 0x10000, 0x1388 | 0x20000, 69999, 70001, 1001 + 2**20]
     n_rand = 3000 if ctx.quick else 200000
-    cases = st.builds(lambda n, via: {"n": n, "via": via},
-                      st.one_of(st.sampled_from(bound), st.integers(0, 2**32 - 1), st.integers(900, 6100)),
-                      st.sampled_from(["int", "answer", "decoded"]))
+    codes = st.one_of(st.sampled_from(bound), st.integers(0, 2**32 - 1), st.integers(900, 6100))
+    cases = st.one_of(
+        st.builds(lambda n, via: {"n": n, "via": via}, codes, st.sampled_from(["int", "answer", "decoded", "answer-e", "decoded-e"])),
+        st.builds(lambda h, e: {"hist": h, "e": e}, st.lists(st.one_of(st.integers(900, 6100), st.sampled_from([2001, 5012, 3002, 4001, 1001])),
+                                                             min_size=2, max_size=4), st.booleans()))
 
     def body(case):
+        if "hist" in case:
+            col.record(case, run_case(case), nontrivial=len({n // 1000 for n in case["hist"]}) > 1, classes=["history-in-place-change"])
+            return
         col.record(case, run_case(case), nontrivial=not trivial(case["n"]),
                    classes=[case["via"], "n>65535" if case["n"] > 65535 else "n<=65535"])
 
     common.hyp_collect(cases, body, n_rand, ctx.seed)
-    ctx.required_classes = ["int", "answer", "decoded", "n>65535"]
+    ctx.required_classes = ["int", "answer", "decoded", "n>65535", "answer-e", "decoded-e", "history-in-place-change"]
     ctx.assumptions = ["multiples of 1000 and answers without a Result-Code AVP are outside the statement",
                        "answer-object predicates are exercised on DiameterAnswer objects holding ResultCodeAVP(n), built and decoded"]
     return col
